@@ -6,8 +6,8 @@ HistoryIndependent (meta = Meta(cfg)), NoLeftover, SameInterface, NetsWellFormed
 spec/ReplaceTrace.tla (trace validation).  Two families (harness/c15_designs.py): RTL (plain child,
 list elements, 2-D list elements, grand-child; palette with update / update_ff / lambda blocks,
 @s.func functions, U/RD/WR constraints, slices, nested children, constants, a placeholder) and CL
-(method ports, a non-blocking interface, update_once blocks, M constraints, nested child,
-placeholder).
+(method ports, a non-blocking interface, update_once blocks, M constraints - also one declared by the
+parent on a method port of the replaceable child -, nested child, placeholder).
   1. TLC checks the invariants of Replace.tla for every scenario (bounded histories) and, as a
      canary, must find a violation for each model-level mutant (constant Bug).
   2. spec -> code: TLC dumps the history graph of every scenario; EVERY path (history) is replayed
@@ -22,10 +22,22 @@ placeholder).
   4. canaries: corrupted copies of accepted observations must be rejected by TLC; corrupted copies
      of real projections by the fresh-build comparison; a planted reference by the sweep.
 
+Violation keys: <category>-<container word>[:<kind>] for a metadata difference (category stale /
+missing / old-object-kept / dup; kind = class of the object, `slice` for a slice signal,
+`ancestor-block` for a constraint declared by a component above the signal's / method's own),
+reachable:<container>{key|value} for a removed object the sweep still reaches,
+replace-raises:<exception>@<pymtl3 call site>, and sim-differs|<m> / sim-raises:<exception>@<pass
+function>><innermost pymtl3 function>|<m> where <m> lists the metadata keys of the same design
+(`metadata-equal` when there are none).  The two families run side by side (threads; one shared
+pool of replay processes); designs are built in the main process by one thread at a time.
+
 NOTE: the per-class local metadata and the harness metadata given to TLC are extracted from designs
 built from scratch (trusted base: plain elaboration; the extraction is checked to be independent of
 position and neighbours on every run).  Names are compared, not objects, except that a name only
 counts when walking it from the top reaches that very object.  connect order is compared as a set.
+Only what the public getters return is compared (signal / method-port sets = get_all_object_filter);
+@s.func read/write sets have no getter and are not compared.  In the quick tier the length-3
+scenario uses 3 positions x 3 classes (thorough: 4 classes, length 4).
 """
 import collections
 import copy
@@ -70,6 +82,7 @@ def scenarios(tier, famname):
     if famname == "RTL":
         sub_p, sub_c = ["c[0]", "d[0][1]", "m.g"], ["Reg", "Cons", "Nest", "Slc"]
         if tier == "quick":
+            sub_c = ["Cons", "Nest", "Slc"]
             return [dict(name="uniform-inits", inits=allc, positions=allp, palette=allc, kinds="both", maxlen=1),
                     dict(name="all-len2", inits=["Comb"], positions=allp, palette=allc, kinds="alt", maxlen=2),
                     dict(name="sub-len3", inits=["Comb"], positions=sub_p, palette=sub_c, kinds="alt", maxlen=3)]
@@ -79,6 +92,7 @@ def scenarios(tier, famname):
                 dict(name="sub-len4", inits=["Comb"], positions=sub_p, palette=sub_c, kinds="alt", maxlen=4)]
     sub_p, sub_c = ["q", "qs[1]", "w.foo"], ["QPipe", "QCnt", "QNest", "QByp"]
     if tier == "quick":
+        sub_c = ["QCnt", "QNest", "QByp"]
         return [dict(name="uniform-inits", inits=allc, positions=allp, palette=allc, kinds="both", maxlen=1),
                 dict(name="all-len2", inits=["QByp"], positions=allp, palette=allc, kinds="both", maxlen=2),
                 dict(name="sub-len3", inits=["QByp"], positions=sub_p, palette=sub_c, kinds="alt", maxlen=3)]
@@ -269,11 +283,14 @@ def _payload(fam, model, table, traces):
     return pay
 
 
-def validate(res, fam, model, table, traces, batch=300):
+def validate(res, fam, model, table, traces, batch=None):
     """-> list of (err, position, clauses) per trace; clauses = {(category, field)} printed by TLC for
     the failing step"""
     if not traces:
         return []
+    if batch is None:       # one round of TLC processes when that keeps a batch between 60 and 400 traces
+        ncpu = os.cpu_count() or 4
+        batch = max(60, min(400, (len(traces) + ncpu - 1) // ncpu))
     chunks = [traces[i:i + batch] for i in range(0, len(traces), batch)]
 
     def one(ch):
@@ -364,18 +381,23 @@ def judge(F, rec, tlc_verdict=None):
     s = rec["sim"]
     if s:
         last = [c for c in rec["checks"] if c["step"] == len(rec["steps"])]
-        mk = sorted({J.finding_key(cat, f, kind) for c in last for (cat, f, kind, es) in c["findings"]})
+        mk = sorted({J.finding_key(cat, f, kind) for c in last for (cat, f, kind, es) in c["findings"]}
+                    | {x["key"] for c in last for x in c["reach"] if x["folded_into"] is None})
+        # a difference in behaviour next to metadata differences of the same design is keyed by them
+        # (it is their consequence; another metadata difference gives another key); without any it
+        # stands alone
+        sfx = "+".join(mk) if mk else "metadata-equal" if last else "metadata-not-compared"
         if s["kind"] == "differs":
-            # a difference in behaviour next to a metadata difference of the same design is its
-            # consequence (reported under the metadata key as well); without one it stands alone
-            F.add("sim-differs:metadata-%s" % ("differs" if mk else "equal" if last else "not-compared"),
+            F.add("sim-differs|%s" % sfx,
                   "%s: simulation differs from the design built from scratch at cycle %d: %s vs %s (metadata "
                   "differences of this design: %s)" % (h, s["cycle"], str(s["replaced"])[:300], str(s["fresh"])[:300],
                                                       mk or "none"), rec, {"sim": s, "metadata": mk})
         elif s["kind"] == "raises":
-            F.add("sim-raises:%s@%s" % (s["exc"], s["where"]),
-                  "%s: simulating the mutated design raises %s in %s (%s); the design built from scratch simulates"
-                  % (h, s["exc"], s["where"], s["msg"].splitlines()[0] if s["msg"] else ""), rec, {"sim": s})
+            F.add("sim-raises:%s@%s|%s" % (s["exc"], s["where"], sfx),
+                  "%s: simulating the mutated design raises %s in %s (%s); the design built from scratch simulates "
+                  "(metadata differences of this design: %s)"
+                  % (h, s["exc"], s["where"], s["msg"].splitlines()[0] if s["msg"] else "", mk or "none"),
+                  rec, {"sim": s, "metadata": mk})
         elif s["kind"] in ("fresh-raises", "both-raise"):
             raise MachineryError("the design built from scratch for %s cannot be simulated: %s" % (h, s))
     if tlc_verdict is not None:
